@@ -28,6 +28,7 @@ REQUIRED = [
     "DaeVerif.C18.Props.real_set_only_from_positive_probe",
     "DaeVerif.C18.Props.genuine_name_has_witness",
     "DaeVerif.C18.Props.negative_cached_name_not_used",
+    "DaeVerif.C18.Props.knowledge_key_ignores_case",
 ]
 
 
